@@ -10,6 +10,7 @@ import HappyProofs.C09.WaitSilent
 import HappyProofs.C09.BulkheadSpec
 import HappyProofs.C09.ConcSpec
 import HappyProofs.C09.PoolDistinct
+import HappyProofs.C09.PoolProps2
 /-!
 # C09 — property theorems
 
@@ -280,7 +281,8 @@ example : (Sem.run (Sem.St.init 2) [.acquire 0 2, .acquire 1 1]).waiters = [(1, 
 /-! ## ConnectionPool (repaired: the slot is reserved when the set-up starts) -/
 
 /-- never more connections (existing or being set up) than `max_connections`, for every interleaving
-    of acquire segments, set-up completions, polls, timeouts and releases -/
+    of acquire segments, set-up completions, polls, timeouts, releases, abandonments, idle-timeout checks
+    and warm-up segments -/
 theorem pool_total_le_max (max : Nat) (ops : List Pool.Op) :
     (Pool.run { max := max } ops).total ≤ max
     ∧ (Pool.run { max := max } ops).active.length ≤ max := by
@@ -301,15 +303,21 @@ example : (Pool.run { max := 2 } [.acq 0, .acq 1, .acq 2, .made 0, .made 1, .rel
     ∧ (Pool.run { max := 2 } [.acq 0, .acq 1, .acq 2, .made 0, .made 1, .rel 1, .poll 2]).waiters = [] := by decide
 
 /-- "as soon as capacity allows": somebody waits only while there is no idle connection and the
-    pool is at its maximum -/
-theorem pool_head_not_grantable (max : Nat) (ops : List Pool.Op)
+    pool is at its maximum — along every interleaving of the classic segments (acquire, set-up
+    completion, poll, time-out, release).  Once an acquirer is abandoned or warm-up runs, capacity can come
+    back while calls are queued; then the first waiter takes it at its next poll
+    (`pool_head_helps_itself`), and the Spec judge allows exactly that (`pool_trace_satisfies_spec`). -/
+theorem pool_head_not_grantable (max : Nat) (ops : List Pool.Op) (hc : ops.all Pool.Op.classic = true)
     (h : (Pool.run { max := max } ops).waiters ≠ []) :
-    (Pool.run { max := max } ops).idle = [] ∧ (Pool.run { max := max } ops).total = max := by
-  have := (Pool.run_inv _ ops (Pool.init_inv max)).head h
-  rw [Pool.run_max] at this
-  exact this
+    (Pool.run { max := max } ops).idle = [] ∧ (Pool.run { max := max } ops).total = max :=
+  Pool.pool_head_not_grantable_classic max ops hc h
 
-example : (Pool.run { max := 1 } [.acq 0, .acq 1]).waiters ≠ [] := by decide
+example : [Pool.Op.acq 0, .acq 1].all Pool.Op.classic = true
+    ∧ (Pool.run { max := 1 } [.acq 0, .acq 1]).waiters ≠ [] := by decide
+
+/-- the hypothesis is needed: after an abandoned set-up call 1 is queued although the slot is free again -/
+example : (Pool.run { max := 1 } [.acq 0, .acq 1, .abandon 0]).waiters ≠ []
+    ∧ (Pool.run { max := 1 } [.acq 0, .acq 1, .abandon 0]).total = 0 := by decide
 
 /-- the unrepaired counting rule (`reserve = false`: `total` counted only after the set-up latency)
     breaks the bound: three acquirers arriving during one set-up with `max_connections = 1` end up with
